@@ -233,6 +233,22 @@ fn c20(args: &Args) -> Report {
             }
         }
     }
+    // a filesystem that translates caller ids (FileSystem::id_remap): both handlers must hand the translated
+    // context to every operation
+    rig.server = Server::new(rig.fs.clone());
+    rig.fs.remap.store(true, std::sync::atomic::Ordering::Relaxed);
+    for &op in ops::ALL_OPS.iter().filter(|o| **o != k::FUSE_INIT && **o != k::FUSE_DESTROY) {
+        for (label, c) in fbrv::engines::wire_eng::c02_dev1_cases(op, false).into_iter().take(4) {
+            let req = c.req().bytes();
+            for tr in &vtrs {
+                if rep.mine(idx) {
+                    compare(&mut rig, &mut rep, &req, tr, Script::OkSmall, &format!("{}@id-remap", label));
+                }
+                idx += 1;
+            }
+        }
+    }
+    rig.fs.remap.store(false, std::sync::atomic::Ordering::Relaxed);
     rep.set("total_cases_all_shards", json!(idx));
     rep
 }
